@@ -2,7 +2,8 @@
 
 The model's environment lets change_track/translate_uri fail; here backend.playback.play() raises
 TypeError (the legacy-signature path _change handles), prepare_change() raises (its future is never
-read) and - as a recorded finding - play() raises something else.  Checked on the real Core:
+read), pause()/resume()/stop()/seek() answer False (the provider refuses) and - as a recorded
+finding - play() raises something else.  Checked on the real Core:
 every client call and notification handler returns (watchdog), nothing but a documented
 validation error escapes (play() raising anything but TypeError does escape: recorded finding)."""
 
@@ -21,6 +22,8 @@ SCRIPTS = [
     [["play", 1]] + D + [["pause"], ["deliver"], ["deliver"], ["next"]] + D + [["resume"]] + D,
     [["play", 3]] + D + [["seek", 6000]] + D + [["atf"]] + D + [["eos"]] + D,
     [["play", None]] + D + [["stop"], ["deliver"], ["deliver"], ["play", 2]] + D + [["atf"]] + D,
+    [["play", 2]] + D + [["pause"], ["deliver"], ["deliver"], ["resume"]] + D + [["play", None]] + D + [["seek", 500]] + D
+    + [["stop"], ["deliver"], ["deliver"], ["play", None]] + D,
 ]
 
 
@@ -33,6 +36,9 @@ def run_stage(chk, prop, contained=True, runtime_faults=True):
         ("prepare_change-RuntimeError", {"prepare_change": RuntimeError}),
         ("play-RuntimeError", {"play": (RuntimeError, {1, 2})}),
         ("play-RuntimeError", {"play": (RuntimeError, {0, 1, 2, 3})}),
+        ("resume-refused", {"refuse": {"resume"}}),
+        ("pause-resume-stop-seek-refused", {"refuse": {"pause", "resume", "stop", "seek"}}),
+        ("stop-seek-refused", {"refuse": {"stop", "seek"}}),
     ):
         if not runtime_faults and "RuntimeError" in fault_name and "prepare" not in fault_name:
             continue
@@ -53,6 +59,12 @@ def run_stage(chk, prop, contained=True, runtime_faults=True):
                     if div:
                         chk.monitor_failure("request_terminates", key,
                                             f"{op[0]} exceeded the watchdog budget with {fault_name} [request_terminates]", where)
+                        break
+                    n_tl = len(r.trace[-2]["tl"]) if len(r.trace) > 1 else 0
+                    if t["backend_calls"] > 10 * n_tl + 40:
+                        chk.monitor_failure("request_bounded", key,
+                                            f"{op[0]} made {t['backend_calls']} backend interactions for a tracklist of "
+                                            f"{n_tl} with {fault_name} [request_bounded]", where)
                         break
                     if t["exc"] and not contained:
                         break     # the call ended (with an error): termination is all this caller asks
